@@ -247,3 +247,25 @@ Proof.
   - vm_compute. reflexivity.
   - vm_compute. reflexivity.
 Qed.
+
+(** * The solving step: a generated game on which the reward loop does not settle
+      (1x3 board  [0|<-( )] [0|v(X)] [3|<>( )], game A, tile-break probability 1/10) *)
+Definition w_moves := ll_nat [[0; 3; 1]]%nat.
+Definition w_rewards := ll_num qops [[0; 0; 3]]%Q.
+Definition w_loose := ll_nat [[0; 1; 0]]%nat.
+Definition w_game := gen_A qops 1 3 w_moves w_rewards w_loose (1 # 10)%Q.
+
+Lemma w_game_diverges_400 :
+  board_ok 1 3 w_moves w_rewards /\
+  (* the reachability half finishes after 7 sweeps with value 9/10 at the initial state ... *)
+  (exists r, solve_reach_fuel qops 400 w_game true = Ok r /\ snd r = 7%nat /\
+             (reach (getn qops (fst (fst r)) 0) == 9 # 10)%Q) /\
+  (* ... but 400 sweeps of the reward loop do not reach the stopping criterion *)
+  solve_fuel qops 400 w_game true = OutOfFuel.
+Proof.
+  split; [|split].
+  - unfold board_ok. split; [lia|split; [lia|split]]; intros i j Hi Hj;
+      destruct i as [|i]; try lia; destruct j as [|[|[|j]]]; try lia; vm_compute; try lia; discriminate.
+  - eexists. split; [vm_compute; reflexivity|]. split; vm_compute; reflexivity.
+  - vm_compute. reflexivity.
+Qed.
